@@ -13,6 +13,7 @@
 #include "../runtime/diagnostics/d_stacktrace.h"
 #include "../runtime/d_code.h"
 #include "d_text.h"
+#include "ops_hashmap.h"
 #include "../runtime/git_sha1.h"
 
 #include "dlops_storage.h"
@@ -859,7 +860,7 @@ namespace
     {
         auto arr = left.data<d_array>();
         auto newindex = arr->size();
-        if (!arr->push_back(value(right)))
+        if (sqf::types::reaches_container(right, arr.get()) || !arr->push_back(value(right)))
         {
             runtime.__logmsg(err::ArrayRecursion(runtime.context_active().current_frame().diag_info_from_position()));
             return {};
@@ -873,7 +874,7 @@ namespace
         auto found = std::find(arr->begin(), arr->end(), right);
         if (found == arr->end())
         {
-            if (!arr->push_back(value(right)))
+            if (sqf::types::reaches_container(right, arr.get()) || !arr->push_back(value(right)))
             {
                 runtime.__logmsg(err::ArrayRecursion(runtime.context_active().current_frame().diag_info_from_position()));
                 return {};
@@ -1258,7 +1259,7 @@ namespace
         }
         auto oldval = (*arr)[index];
         (*arr)[index] = val;
-        if (!arr->recursion_test())
+        if (sqf::types::reaches_container(val, arr.get()) || !arr->recursion_test())
         {
             (*arr)[index] = oldval;
             runtime.__logmsg(err::ArrayRecursion(runtime.context_active().current_frame().diag_info_from_position()));
